@@ -46,7 +46,7 @@ CHECKS = {
           'C06', 'class-shape checks and who-may scans', 'each process holds or awaits at most one request per resource'),
  'C07': c('Container guards and constructor bounds, Store/PriorityStore/FilterStore _do_put/_do_get, the scan loops, request '
           'constructors and cancel-with-rescan equivalent to reference tables; who-may scans of _level, items and the queues; '
-          'heapq resolved; Container amount/bound guards evaluated for NaN.',
+          'heapq resolved; Container amount/bound guards evaluated for NaN; the put guard evaluated for an absorbed amount on a full container.',
           'C07', 'class-shape checks and who-may scans', 'items of a PriorityStore are orderable'),
  'C08': c('Per element: put()/run()/__init__ of ports, wires, token buckets, every scheduler, demuxes, switches, generator, '
           'sink and Packet equivalent to reference tables; element registry exhaustive; every put() path disposes of the packet '
@@ -88,7 +88,7 @@ CHECKS = {
           'C17', 'who-may scans of cwnd/ssthresh', 'the CUBIC window function has no reference formula in the property'),
  'C18': c('FlowDemux/FIBDemux/RandomDemux.put, switch constructors, Hub, Splitter/NSplitter, Packet.__copy__, FatTree '
           'construction, flow and FIB generation equivalent to reference tables; every mutable Packet member re-created by '
-          '__copy__; one ACK-class offset literal.',
+          '__copy__; one ACK-class offset value in sink, sender and FIB generator; every concrete Device class defines element_id.',
           'C18', 'an aliasing rule', 'networkx all_shortest_paths; end-to-end delivery is a run-time statement'),
  'C19': c('Timer.__init__ (argument normalisation), run (pending-expiry flag instead of a clock comparison), stop, restart and the sender\'s timeout_callback equivalent to '
           'reference tables; restart reachable from the timer\'s own process through callback edges, so its interrupt is '
